@@ -457,28 +457,10 @@ func (s *clientSocket) emitBuffered() {
 			s.sendAckPacket(ackID, values)
 		}
 
-		hasAckFunc := s.callEvent(event.handler, event.header, event.values, sendAck)
-
-		// If the handler has an acknowledgement function, the acknowledgement is
-		// up to the handler: it can call the function after it returns (`sendAck`
-		// makes sure that at most one acknowledgement is sent), so the ID
-		// must not be marked as sent here.
-		if event.header.ID != nil && !hasAckFunc {
-			mu.Lock()
-			sent, ok := ackIDs[*event.header.ID]
-			if ok && sent {
-				mu.Unlock()
-				continue
-			}
-			ackIDs[*event.header.ID] = true
-			mu.Unlock()
-
-			// If there is no acknowledgement function
-			// and there is no response already sent,
-			// then send an empty acknowledgement.
-			s.debug.Log("Sending ack with ID", *event.header.ID)
-			s.sendAckPacket(*event.header.ID, nil)
-		}
+		// As on the direct path (`onPacket`), an acknowledgement is sent only if a handler calls its
+		// acknowledgement function (which it can do after it has returned). A handler without such a
+		// function does not acknowledge anything: another handler of the same event might.
+		s.callEvent(event.handler, event.header, event.values, sendAck)
 	}
 	s.receiveBuffer = nil
 
